@@ -208,7 +208,7 @@ for (m, k, sz, al, dp, off, uw, lim, ex) in F3_LIST:
     nm = "f3_commit_m%d_k%d_s%d_a%d_d%d" % (m, k, sz, al, dp) + ("" if lim is None else "_l%d" % lim)
     H(nm, "__verif::f3", "F3",
       quick=F3_QUICK.get((m, k, sz, al, lim), []),
-      thorough=["C01", "C03", "C04", "C07", "C08", "C09", "C10", "C18"], timeout=3000, mem_gb=20, cost=120, mem_need=9,
+      thorough=["C01", "C03", "C04", "C07", "C08", "C09", "C10", "C18"], timeout=3000, mem_gb=24, cost=120, mem_need=11,
       stubs=STUB_POOL, inst="Bump<%d>" % m, funcs=F3_FUNCS, unwind_is_claim=True, exempt=ex,
       bounds={"chunks_before": k, "finger_of_current_chunk": "offset %d (concrete per instance)" % off,
               "request": "size %d align %d (concrete per instance; all-size arithmetic is decided by F1/F4/F5)" % (sz, al),
